@@ -506,6 +506,20 @@ def run(chk, tier):
         fn = "assert_impl" if derive == "Display" else "assert_impl_debug"
         mod = "use super::*;\n#[derive(derive_more::%s)]\n%s\npub fn run(r: &mut R) { %s::<%s>(); r.check(\"impl available\", true); }" % (derive, item, fn, ty)
         cases.append(Case("c%d" % len(cases), mod, meta={"src": "#[derive(%s)] %s" % (derive, item), "inst": ty}))
+    # a field type that only LOOKS like the deriving type (an associated type or a foreign type of the same name), reaches it behind a raw
+    # pointer / PhantomData, or is a reference to a trait object: the exact bound has to stay (commit review of 6917232 / a548dc5)
+    for derive, item, ty, extra in (
+            ("Debug", "struct Item<I: Iterator>(I::Item);", "Item<::core::option::IntoIter<i32>>", ""),
+            ("Display", '#[display("{_0}")] struct Output<F: ::core::ops::Add>(F::Output);', "Output<i32>", ""),
+            ("Debug", "struct Idd<T>(ext::Idd<T>);", "Idd<NoFmt>", "mod ext { pub struct Idd<T>(pub ::core::marker::PhantomData<T>); impl<T> ::core::fmt::Debug for Idd<T> { fn fmt(&self, f: &mut ::core::fmt::Formatter<'_>) -> ::core::fmt::Result { f.write_str(\"x\") } } }"),
+            ("Debug", "struct Node<T> { id: u32, parent: *const Node<T>, marker: ::core::marker::PhantomData<Node<T>>, #[debug(skip)] value: Option<T> }", "Node<NoFmt>", ""),
+            ("Debug", "enum Tree<T> { Leaf(T), Node(Vec<(T, Self)>) }", "Tree<i32>", ""),
+            ("Debug", "struct Scene<'a, T> { shape: &'a dyn Shape<T> }", "Scene<'static, i32>", "pub trait Shape<T>: ::core::fmt::Debug {}"),
+            ("Debug", "enum Scene<'a, T> { One(&'a mut (dyn Shape<T> + Send)), Two { a: &'a dyn Shape<T>, b: T } }", "Scene<'static, i32>", "pub trait Shape<T>: ::core::fmt::Debug {}")):
+        fn = "assert_impl" if derive == "Display" else "assert_impl_debug"
+        name = ty.split("<")[0]
+        mod = "use super::*;\n%s\n#[derive(derive_more::%s)]\n%s\npub fn run(r: &mut R) { %s::<%s>(); r.check(\"impl available\", true); }" % (extra, derive, item, fn, ty)
+        cases.append(Case("c%d" % len(cases), mod, meta={"src": "#[derive(%s)] %s" % (derive, item), "inst": ty}))
     # recursive generic types: the bound for the derived trait on a field type naming the deriving type itself can never be resolved
     for derive, item, ty in (
             ("Display", 'enum S<T> { Lit(T), #[display("-{_0}")] Neg(Box<S<T>>), #[display("({_0} + {_1})")] Add(Box<S<T>>, Box<S<T>>) }', "S<i32>"),
